@@ -48,6 +48,7 @@ type CScenario struct {
 	MapPolicy  int         `json:"map_policy"`
 	SkipAlone  bool        `json:"skip_alone,omitempty"`
 	Typed      bool        `json:"typed,omitempty"`
+	Prefix     string      `json:"prefix,omitempty"`
 }
 
 type CRecord struct {
@@ -434,7 +435,7 @@ func (e *Engine) checkCorpus(c *core.Ctx, id string) ([]core.Violation, map[stri
 			aloneBy[[2]int{a.Task, a.Op}] = a
 			if id == "C15" {
 				ps = append(ps, corpusC15(a, stub[scs[i].Pkg])...)
-				ps = append(ps, routingRule(a, e.matchers(scs[i].Pkg), scs[i].Pkg)...)
+				ps = append(ps, routingRule(a, e.matchers(scs[i].Pkg), scs[i].Pkg, scs[i].Prefix)...)
 			}
 		}
 		for _, cr := range r.Conc {
@@ -451,7 +452,7 @@ func (e *Engine) checkCorpus(c *core.Ctx, id string) ([]core.Violation, map[stri
 			}
 			if id == "C15" {
 				ps = append(ps, corpusC15(cr, stub[scs[i].Pkg])...)
-				ps = append(ps, routingRule(cr, e.matchers(scs[i].Pkg), scs[i].Pkg)...)
+				ps = append(ps, routingRule(cr, e.matchers(scs[i].Pkg), scs[i].Pkg, scs[i].Prefix)...)
 			} else {
 				ps = append(ps, corpusC19(aloneBy[[2]int{cr.Task, cr.Op}], cr)...)
 			}
@@ -527,7 +528,7 @@ func (e *Engine) replayCorpus(c *core.Ctx, id string, raw json.RawMessage, race 
 					ps = append(ps, typedDeliver(cr, pkg, deliver[pkg])...)
 				case "C15":
 					ps = append(ps, typedC15(cr, pkg)...)
-					ps = append(ps, routingRule(cr, e.matchers(pkg), pkg)...)
+					ps = append(ps, routingRule(cr, e.matchers(pkg), pkg, rs.Scenario.Prefix)...)
 				case "C19":
 					if pi == 1 {
 						ps = append(ps, typedC19(aloneBy[[2]int{cr.Task, cr.Op}], cr, pkg)...)
@@ -550,13 +551,13 @@ func (e *Engine) replayCorpus(c *core.Ctx, id string, raw json.RawMessage, race 
 		aloneBy[[2]int{a.Task, a.Op}] = a
 		if id == "C15" {
 			ps = append(ps, corpusC15(a, stubOf(e, rs.Scenario.Pkg))...)
-			ps = append(ps, routingRule(a, e.matchers(rs.Scenario.Pkg), rs.Scenario.Pkg)...)
+			ps = append(ps, routingRule(a, e.matchers(rs.Scenario.Pkg), rs.Scenario.Pkg, rs.Scenario.Prefix)...)
 		}
 	}
 	for _, cr := range r.Conc {
 		if id == "C15" {
 			ps = append(ps, corpusC15(cr, stubOf(e, rs.Scenario.Pkg))...)
-			ps = append(ps, routingRule(cr, e.matchers(rs.Scenario.Pkg), rs.Scenario.Pkg)...)
+			ps = append(ps, routingRule(cr, e.matchers(rs.Scenario.Pkg), rs.Scenario.Pkg, rs.Scenario.Prefix)...)
 		} else {
 			ps = append(ps, corpusC19(aloneBy[[2]int{cr.Task, cr.Op}], cr)...)
 		}
@@ -685,7 +686,7 @@ func wholeSegments(rts []Route, method string) bool {
 
 // routingRule: a request reaches only an operation its request line designates; a path that designates none is
 // answered 404, one whose operations do not take the method 405 - without reaching any handler.
-func routingRule(r *CRecord, ms []routeMatcher, pkg string) []problem {
+func routingRule(r *CRecord, ms []routeMatcher, pkg, prefix string) []problem {
 	if r.ReqPath == "" || strings.HasPrefix(r.Call.TOp, "~") || len(ms) == 0 {
 		return nil
 	}
@@ -697,7 +698,11 @@ func routingRule(r *CRecord, ms []routeMatcher, pkg string) []problem {
 		return nil // the request line itself may have been altered on the wire
 	}
 	var out []problem
-	rts := designated(ms, r.ReqPath)
+	// the server is mounted under prefix: a path outside it designates nothing
+	var rts []Route
+	if rest, ok := strings.CutPrefix(r.ReqPath, prefix); ok {
+		rts = designated(ms, rest)
+	}
 	var forMethod []string
 	for _, rt := range rts {
 		if rt.Method == r.ReqMethod {
